@@ -9,8 +9,9 @@ RULE = ("closed outward-oriented meshes: voxel solids (L/U/C/T/plus/frames incl.
         "perturbed triangulated hulls, Polyhedron copies of convex solids (faces of degree 3..12), prisms over regular "
         "n-gons with n-gonal caps (n up to 360); faces cyclically relabelled, vertices renumbered, faces reordered; rigid "
         "placement (random / near-axis / no rotation, offset <= 10 diameters, scale 1e-3..1e3 and 2^-30..2^30); a third "
-        "reached through a history of mutators; queries in random order; outside the property's scope (correspondence "
-        "only): extrusions with non-convex polygonal caps (reflex first corner included); distinct = distinct "
+        "reached through a history of mutators; queries in random order; two regression witnesses on every run: the regular "
+        "360-gon prism (known finding D1) and the L-tromino at 2^30 rotated about the origin (D2, repaired by 744f807: must "
+        "be exact); outside the property's scope (correspondence only): extrusions with non-convex polygonal caps (reflex first corner included); distinct = distinct "
         "(vertices, faces)")
 ASSUMPTIONS = [
     "exact integrals over the solid = sums of tetrahedron closed forms (Spec/Solid.lean) over the generator's own "
@@ -265,28 +266,26 @@ def eval_case(ctx, case):
     tri_res = guarded(lambda: [np.array(t) for t in p._surface_triangulation()])
     obs = {k: v[1] for k, v in res.items() if v[0] == "ok"}
     errs = {k: v[1:] for k, v in res.items() if v[0] == "err"}
-    # the coplanarity test of Polygon.__init__ (np.isclose(n.v, d, rtol=1e-4) with numpy's ABSOLUTE atol=1e-8): how far
-    # are the faces from its decision boundary?  (rounding noise of n.v is ~1e-16 * size)
+    # the coplanarity test of Polygon.__init__ (as repaired by 744f807): |(v - v0).n| <= 1e-4 * max|v - v0|, relative to
+    # the face's own size.  How far are the faces from its decision boundary?  (rounding noise ~1e-15 * |coordinates|)
     planar_margin = np.inf
     for f in F:
         P = V[f]
         c = np.cross(P[2] - P[1], P[0] - P[1])
         if np.linalg.norm(c) > 0:
             nn = c / np.linalg.norm(c)
-            dev = float(np.max(np.abs(P @ nn - nn.dot(P[0]))))
-            tol_f = 1e-8 + 1e-4 * abs(float(nn.dot(P[0])))
+            rel = P - P[0]
+            dev = float(np.max(np.abs(rel @ nn)))
+            tol_f = 1e-4 * float(np.max(np.linalg.norm(rel, axis=1)))
             noise = 1e-15 * float(np.max(np.abs(P)))
             if dev + noise > 0.05 * tol_f and dev - noise < 20 * tol_f:
                 planar_margin = 0.0
-    coplanar_noise = d >= 2.0 ** 24
     if scope:
         for k, e in errs.items():
             sig = "Polyhedron.%s:raises" % {"area": "surface_area", "face_areas": "get_face_area",
                                             "inertia": "inertia_tensor"}.get(k, k)
             if big:
                 sig += ":convex-face-with-flat-corners"
-            elif coplanar_noise and "coplanar" in e[1]:
-                sig += ":absolute-planar-atol-at-scale>=2^24"
             ctx.fail(sig, "%s raised %s on a valid closed mesh with convex faces" % (k, e[0]), case, e[1])
 
     # ---------------- B: model vs implementation
